@@ -92,6 +92,8 @@ pub struct Preset {
     pub bad_argument_pm: u64,
     /// per mille of runs that are long (400..2400 events); raised by the thorough tier
     pub long_pm: u64,
+    /// how much more often soak patterns are enabled (leaks and overflows are C18's business)
+    pub soak_boost: u64,
 }
 
 pub fn preset_for(prop: &str) -> Preset {
@@ -114,6 +116,7 @@ pub fn preset_for(prop: &str) -> Preset {
         corrupt_channel_boost: 1,
         bad_argument_pm: 100,
         long_pm: 2,
+        soak_boost: 1,
     };
     match prop {
         "C07" => Preset { name: "C07", w_cc14_group: 50, w_raw_cc14: 25, w_pn_group: 5, w_sentence: 5, w_raw_pn: 5, bad_argument_pm: 150, ..base },
@@ -126,7 +129,7 @@ pub fn preset_for(prop: &str) -> Preset {
         "C15" => Preset { name: "C15", min_channels: 2, corrupt_channel_boost: 4, ..base },
         "C16" => Preset { name: "C16", inject_boost: 6, w_chaff_cc: 14, w_chaff_other: 10, ..base },
         "C17" => Preset { name: "C17", reset_boost: 5, fork_pm: 150, ..base },
-        "C18" => Preset { name: "C18", ..base },
+        "C18" => Preset { name: "C18", soak_boost: 3, ..base },
         _ => base,
     }
 }
@@ -289,7 +292,7 @@ pub fn draw_cfg(r: &mut Rng, p: &Preset) -> Cfg {
         if r.chance(1, 12) {
             rate[F_DUP_STORM] = *r.pick(&[10u64, 30]);
         }
-        if r.chance(1, 10) {
+        if r.below(10) < p.soak_boost {
             rate[F_SOAK_LOOP] = *r.pick(&[15u64, 40]);
         }
         if r.chance(1, 6) {
@@ -1235,6 +1238,66 @@ impl<'a> Gen<'a> {
         self.inflight = [false; 16];
     }
 
+    /// A short cycle on ONE channel, repeated hundreds of times after a selection: half of the time
+    /// the shape "value-ish byte, maybe a wait, poll" (what a steady stream of lone value bytes looks
+    /// like to a polling host), otherwise 1-4 random ops of the channel's own alphabet. Then a probe.
+    fn emit_cycle_soak(&mut self, ch: u8) {
+        let repr = self.repr();
+        let t = self.cfg.timeout_ns;
+        let reg = self.r.chance(1, 2);
+        let (x, y) = if reg { (101u8, 100u8) } else { (99, 98) };
+        match self.r.below(4) {
+            0 => {}
+            1 => self.ev.push(Ev::Feed { b: [0xB0 | ch, self.r.below(32) as u8, self.r.u7()], repr }),
+            _ => {
+                let (a, b) = (self.value7(ch), self.value7(ch));
+                self.ev.push(Ev::Feed { b: [0xB0 | ch, x, a], repr });
+                self.ev.push(Ev::Feed { b: [0xB0 | ch, y, b], repr });
+            }
+        }
+        let mut cyc: Vec<Ev> = Vec::new();
+        let wait = |r: &mut Rng| match r.below(3) {
+            0 => None,
+            1 => Some(Ev::Adv { ns: t }),
+            _ => Some(Ev::Adv { ns: t.saturating_add(1).min(DUR_MAX_NS) }),
+        };
+        if self.r.chance(1, 2) {
+            let cn = *self.r.pick(&[6u8, 38, 96, 6, 38, 99, 98]);
+            let v = self.value7(ch);
+            cyc.push(Ev::Feed { b: [0xB0 | ch, cn, v], repr });
+            if let Some(w) = wait(self.r) {
+                cyc.push(w);
+            }
+            cyc.push(Ev::Poll { ch });
+        } else {
+            for _ in 0..(1 + self.r.below(4)) {
+                let e = match self.r.below(10) {
+                    0..=4 => {
+                        let cn = *self.r.pick(&[6u8, 38, 96, 97, 98, 99, 100, 101, 0, 32, 1, 33]);
+                        let v = self.value7(ch);
+                        Ev::Feed { b: [0xB0 | ch, cn, v], repr }
+                    }
+                    5 | 6 => Ev::Poll { ch },
+                    7 => wait(self.r).unwrap_or(Ev::Adv { ns: 1 }),
+                    8 => Ev::Feed { b: [0xB0 | ch, 64 + self.r.below(32) as u8, self.r.u7()], repr },
+                    _ => Ev::Reset,
+                };
+                cyc.push(e);
+            }
+        }
+        let k = cyc.len() as u8;
+        self.ev.extend(cyc);
+        let n = if self.p.long_pm > 2 && self.r.chance(1, 12) { 65535u16 } else { *self.r.pick(&[255u16, 256, 257, 300]) };
+        self.fire(F_SOAK_LOOP, Some(ch));
+        self.ev.push(Ev::Repeat { k, n });
+        // probe
+        let v = self.value7(ch);
+        self.ev.push(Ev::Feed { b: [0xB0 | ch, 6, v], repr });
+        self.ev.push(Ev::Adv { ns: t });
+        self.ev.push(Ev::Poll { ch });
+        self.inflight[ch as usize] = true;
+    }
+
     /// Soak loop: repeat the last few events many times (leaks and counters need many rounds of one
     /// short cycle, e.g. value byte - wait - poll).
     fn maybe_soak(&mut self) {
@@ -1391,6 +1454,10 @@ impl<'a> Gen<'a> {
                         self.soaks += 1;
                         self.emit_interrupted_pair(ch);
                     }
+                    if self.cfg.rate[F_SOAK_LOOP] > 0 && self.soaks < 2 && self.r.chance(1, 25) {
+                        self.soaks += 1;
+                        self.emit_cycle_soak(ch);
+                    }
                     if scripts[ti].is_empty() {
                         let mut q = std::mem::take(&mut scripts[ti]);
                         self.script(ch, &mut q);
@@ -1545,6 +1612,10 @@ impl<'a> Gen<'a> {
                 if self.cfg.rate[F_SOAK_LOOP] > 0 && self.soaks < 2 && self.r.chance(1, 40) {
                     self.soaks += 1;
                     self.emit_interrupted_pair(c);
+                }
+                if self.cfg.rate[F_SOAK_LOOP] > 0 && self.soaks < 2 && self.r.chance(1, 25) {
+                    self.soaks += 1;
+                    self.emit_cycle_soak(c);
                 }
                 if structured {
                     if scripts[ti].is_empty() {
